@@ -582,6 +582,49 @@ func c05Run(c *core.Ctx) {
 			c.Add("header_value_cases", int64(256*h2s))
 		}
 	}
+	// the family decoders called directly (as an SMF does with an N1 SM container) with a foreign or wrong first octet:
+	// first octet in {7E, 2E, 00, FF} x second octet in {00, 05} x every third octet x every fourth octet (5GSM: every
+	// PTI x every type; 5GMM: every type x every following octet) in front of the body of an assigned type — the type
+	// octet alone, at its own offset, decides
+	for _, fam := range []string{"gmm", "gsm"} {
+		for _, o0 := range []byte{0x7E, 0x2E, 0x00, 0xFF} {
+			for o2 := 0; o2 < 256; o2++ {
+				u++
+				if !c.Mine(u) {
+					continue
+				}
+				if !c.Begin("family-header-block", "decode", map[string]any{"family": fam, "first_octet": o0, "third_octet": o2}) {
+					continue
+				}
+				for _, o1 := range []byte{0x00, 0x05} {
+					for o3 := 0; o3 < 256; o3++ {
+						t := o3
+						if fam == "gmm" {
+							t = o2
+						}
+						body := c05Body(spec, fam, t)
+						if body == nil {
+							body = c05Body(spec, fam, types[fam][0])
+						}
+						data := append([]byte{}, body...)
+						if len(data) < 4 {
+							data = append(data, 0, 0, 0, 0)
+						}
+						data[0], data[1], data[2], data[3] = o0, o1, byte(o2), byte(o3)
+						if fam == "gmm" && len(body) > 3 && spec.ByType(fam, t) != nil {
+							data[3] = body[3] // keep the first body octet of the assigned type; the sweep of the fourth octet applies to unassigned types
+							if o3 != 0 {
+								continue
+							}
+						}
+						n++
+						c05DecExec(c, c05Dec{Entry: fam, Hex: fmt.Sprintf("%x", data)})
+					}
+				}
+				c.Tick()
+			}
+		}
+	}
 	// nested messages: every variable-length element of every message filled with a complete instance of every message
 	// type (a decoder that unpacks a container must still populate exactly the body the outer type names)
 	for mi := range spec.Messages {
